@@ -1732,6 +1732,30 @@ example : run ⟨{ PrintState.new with skipNewLine := true, formatString := some
       (lower ⟨.screen, none, []⟩)
     = run (St.init []) (lower ⟨.screen, none, []⟩) := statement_forgets_state _ _ _ _
 
+/-- **An abandoned PRINT statement leaves no pending separator**: whatever part of a statement was executed before a
+trapped error ended it (header and the first `k` items, the last of which may be a `;` or a `,`; `PrintEnd` never
+runs), the statement executed next — the following one, one of the handler, or the same one again — does exactly
+what it does after a completed statement: it starts from the devices as the abandoned statement left them and from
+nothing else. -/
+theorem abandoned_print_leaves_no_pending_separator (st st' : St) (s : Stmt) (k : Nat)
+    (_h : run st (lowerAbandoned s k) = .ok st') (t : Stmt) :
+    run st' (lower t) = run ⟨PrintState.new, st'.dev⟩ (lower t) :=
+  statement_forgets_state _ _ _ _
+
+/-- In particular a bare PRINT after an abandoned statement ends the line on its device, also when the abandoned
+statement stopped directly behind a separator. -/
+theorem bare_print_after_abandoned_ends_line (st st' : St) (s : Stmt) (k : Nat)
+    (_h : run st (lowerAbandoned s k) = .ok st') (p : WritePrinter) (hp : st'.dev .screen = some p) :
+    ∃ st'', run st' (lower ⟨.screen, none, []⟩) = .ok st'' ∧ st''.dev .screen = some p.println := by
+  simp [lower, lowerTarget, run, step, psStep, PrintState.setPrinterType, PrintState.target, hp, Devices.set,
+    WritePrinter.run, WritePrinter.apply, Option.getD]
+
+/-- Not vacuous: `PRINT "a"; <error>` is abandoned with the separator pending. -/
+example : (run (St.init []) (lowerAbandoned ⟨.screen, none, [.expr (.str ['a']), .semicolon, .expr (.int 1)]⟩ 2)).toOption.map
+    (fun st => st.ps.skipNewLine) = some true := by
+  simp [lowerAbandoned, lowerTarget, lowerArg, run, step, psStep, PrintState.setPrinterType, PrintState.target, St.init,
+    Except.toOption]
+
 theorem runS_base (st st' : St) (stack : List PrintState) (is : List Instr) (rest : List SInstr)
     (h : run st is = .ok st') : runS st stack (is.map .base ++ rest) = runS st' stack rest := by
   induction is generalizing st with
